@@ -18,9 +18,12 @@ class C02(DiffProperty):
     modelled = ("ring level: mptcore/queue/queue_push.c (all branches: aligned, upper part, lower part, out-of-band scratch copy, align-and-retry, second "
                 "push), queue_recv.c (MissingBuffer recovery with the chunked move), queue_shift.c, message_get.c transcribed in coq/Cobs/QueueCodec.v on top of "
                 "the C13 ring model and the C01/C03 codec models; the transport the harness plays (wire, receive, pump, retrying push) in coq/Cobs/StreamRun.v; "
-                "flat level: encoder o wire splitting o decoder loop composed in coq/Cobs/StreamProofs.v. mptio/stream/*.c (poll, read, writev) is represented by "
-                "the harness' wire/grow rules, not run; the raw (no encoder/decoder) modes of the queue functions are not modelled")
-    trusted = ["harness/c02_stream.c plays the transport: it moves finished bytes between the rings and enlarges the reader ring when it is full or the "
+                "flat level: encoder o wire splitting o decoder loop composed in coq/Cobs/StreamProofs.v. mptio/stream/{stream_push,stream_flush,stream_poll,"
+                "stream_dispatch}.c and mptcore/queue/queue_load.c are NOT modelled: they are driven for real by a second harness (harness/c02_io.c: two mpt_stream "
+                "objects over a socketpair, small send buffers, partial and failed writes, reads in 64-byte steps, all four COBS framings and the command text "
+                "framing) and decided against the specification only; the raw (no encoder/decoder) modes of the queue functions are not modelled")
+    trusted = ["harness/c02_io.c: the kernel socket decides how much each writev/readv moves; its pump loop stops after three rounds without progress",
+               "harness/c02_stream.c plays the transport: it moves finished bytes between the rings and enlarges the reader ring when it is full or the "
                "decoder asks for buffer (as mptio/stream/stream_poll.c does with mpt_queue_prepare)"]
     assumptions = ["the reader ring can grow (realloc succeeds)", "OS-level partial writes/timeouts of mptio are outside the model"]
     level_text = ("proof (partial): SAFETY is proved end to end at ring level for all histories, liveness only per frame. Flat level: C02_wire_splits_into_frames, "
@@ -34,8 +37,8 @@ class C02(DiffProperty):
                   "Tied to the code by differential execution of the same ring-level model (state compared after every operation) on rings of many capacities/offsets "
                   "with arbitrary wire cuts incl. single-byte delivery, decided against the specification 'received = sent'")
     level_note = ("partial: liveness ('everything arrives after a drain') is proved per frame at loop level only (C02_stream_integrity_flat with the gap condition) and "
-                  "decided for histories by the correspondence run; a genuine decoding error ends the reader history of the theorem; mptio stream glue (sockets, poll) "
-                  "is represented by the harness' wire/grow rules, not executed. Theorems closed under the global context.")
+                  "decided for histories by the correspondence run; a genuine decoding error ends the reader history of the theorem; the mptio stream glue (mpt_stream_push/flush/poll/dispatch over a socketpair) has no "
+                  "mechanism model: it is executed and compared with the specification only (three defects found there and repaired). Theorems closed under the global context.")
     technique = "Coq theorems: ring-level writer and reader histories refine the stream-level codec invariants, end-to-end composition (delivered is a prefix of sent); specification-level differential check of the ring-level mechanism model"
     coq_dir = "Cobs"
     coq_deps = ("C13",)
@@ -55,9 +58,12 @@ class C02(DiffProperty):
         if it is None or st is None or mt is None:
             r["corr"] = (-1, "missing output", "I=%s M=%s S=%s" % (it is not None, mt is not None, st is not None))
             return r
+        io = int(case.split()[0]) >= 10     # stream glue case: no mechanism model, specification only
         for j in range(max(len(it), len(mt))):
             a = it[j] if j < len(it) else "<none>"
             b = mt[j] if j < len(mt) else "<none>"
+            if io and b == "*":
+                continue
             if a != b:
                 r["corr"] = (j, a[:400], b[:400])
                 break
@@ -67,6 +73,8 @@ class C02(DiffProperty):
             a = it[j].split("#")[0] if j < len(it) else "<none>"
             b = st[j] if j < len(st) else "L:"
             sent = [x for x in b[2:].split(",") if x != ""] if b.startswith("L:") else []
+            if io and case.split()[0] == "14":
+                sent = ["0420" + x for x in sent]      # the command decoder prepends its message header
             if a.startswith("F") or "|" not in a:
                 r["spec"] = (j, a, "no fault; " + b)
                 break
@@ -83,6 +91,27 @@ class C02(DiffProperty):
                 r["spec"] = (j, "after drain received: " + ",".join(got), "all sent messages " + ",".join(sent))
                 break
         return r
+
+    def evaluate(self, cases, workdir, tagsuffix=""):
+        """two harnesses: the ring-level one (variant 0..3) and the stream glue one (variant 10..14, mptio over a socketpair)"""
+        import vcheck
+        hq = vcheck.build_harness(self.harness_src, self.libs, extra=self.extra_harness_flags)
+        hi = vcheck.build_harness("c02_io.c", ["mptio", "mptcore"])
+        mx = vcheck.build_model(self.mlname, self.driver, self.extract_vo)
+        ided = ["c%d %s" % (i, c) for i, c in enumerate(cases)]
+        isio = lambda l: int(l.split(None, 2)[1]) >= 10
+        I, errs = {}, []
+        for exe, sub, tag in ((hq, [l for l in ided if not isio(l)], "impl"), (hi, [l for l in ided if isio(l)], "implio")):
+            if sub:
+                o, e = vcheck.run_cases(exe, sub, workdir, tag + tagsuffix, env=self.harness_env, args=self.harness_args)
+                I.update(o.get("I", {}))
+                errs += e
+        M, e2 = vcheck.run_cases(mx, ided, workdir, "model" + tagsuffix)
+        res = []
+        for i, c in enumerate(cases):
+            k = "c%d" % i
+            res.append(self.compare(c, I.get(k), M.get("M", {}).get(k), M.get("S", {}).get(k)))
+        return res, errs + e2
 
     def split(self, case):
         t = case.split()
@@ -125,6 +154,8 @@ class C02(DiffProperty):
             cl.add("op:" + o[0])
             if o[0] == "wire" and o[1] == "1":
                 cl.add("single-byte-delivery")
+        if int(hdr[0]) >= 10:
+            cl.add("stream-glue")
         return cl
 
     def gen_msg(self, rng, v, maxn):
@@ -205,6 +236,33 @@ class C02(DiffProperty):
             ops += ["recv"] * rng.choice([0, 1, 3])
             ops += ["send", hx([0x77]), "drain"]
             cases.append(" ".join([str(v), str(wcap), str(rng.randrange(0, wcap)), str(rcap), str(rng.randrange(0, rcap))] + ops))
+        # stream glue (mptio: mpt_stream_push/flush/poll/dispatch over a socketpair): specification level only
+        ns = 400 if tier == "quick" else 8000
+        for i in range(ns):
+            v = 10 + i % 5
+            sndbuf = rng.choice([0, 0, 2304, 4608])
+            ops = []
+            for _ in range(rng.choice([1, 2, 3, 5, 8, 20])):
+                big = rng.random() < 0.15
+                m = self.gen_msg(rng, v % 10 if v < 14 else 0, rng.choice([3000, 9000, 70000]) if big else rng.choice([4, 20, 100, 300, 700]))
+                if v == 14:
+                    m = [b or 0x20 for b in m] or [0x61]   # command text: no zero byte, no empty command
+                k = rng.random()
+                if k < 0.6 or not m:
+                    ops += ["send", hx(m)]
+                else:
+                    cut = rng.randrange(0, len(m) + 1)
+                    if m[:cut]:
+                        ops += ["part", hx(m[:cut])]
+                    if rng.random() < 0.3:
+                        ops += ["wire", "0"]
+                    if m[cut:]:
+                        ops += ["part", hx(m[cut:])]
+                    ops += ["fin"]
+                for _ in range(rng.choice([0, 0, 1, 2])):
+                    ops += [rng.choice(["wire 0", "recv"])]
+            ops += ["drain"]
+            cases.append(" ".join([str(v), str(sndbuf), "0", "0", "0"] + " ".join(ops).split()))
         return cases
 
 PROP = C02()
